@@ -115,9 +115,11 @@ func runC13(r *core.Run) {
 						mview := ref.RootC(shape)
 						for _, a := range last {
 							sl[len(sl)-1] = a
-							if _, _, merr := mview.Slice(sl); merr == ref.ErrUnspecified {
-								continue // empty ranges: outside the argument space C02 judges
-							}
+							// empty ranges (start == end) are outside the argument space C02 judges: nothing is demanded of their
+							// result except what holds for EVERY tensor (size = product of the shape, in-bounds distinct positions)
+							// and that calculator and operation accept or refuse together
+							_, _, merr := mview.Slice(sl)
+							unspec := merr == ref.ErrUnspecified
 							args := atlas.ToSlices(sl)
 							var ss tensor.Shape
 							var v tensor.View
@@ -130,10 +132,23 @@ func runC13(r *core.Run) {
 							case (o1.Class == "ok") != (o2.Class == "ok"):
 								kind = "error-disagreement"
 								det = fmt.Sprintf("Shape.S: %s, Slice: %s", o1.Class, o2.Class)
+							case unspec:
+								if o2.Class == "ok" {
+									if dv, ok := v.(*tensor.Dense); ok {
+										if msg := metaInvariant(dv); msg != "" {
+											kind = "invariant"
+											det = "Slice with an empty range returns a tensor violating the metadata invariant: " + msg
+										}
+									}
+								}
 							case o1.Class == "ok" && !ref.EqInts(ss, v.Shape()):
 								kind = "wrong-shape"
 								det = fmt.Sprintf("Shape.S predicts %v, Slice returns %v", []int(ss), []int(v.Shape()))
 								kind += c13SliceTag(shape, sl, ss, v.Shape())
+							}
+							if kind != "" && unspec {
+								// DEFECT precondition of F-C13-empty-range-slice: a range with start == end (after clamping) in the list
+								kind += "[KF:empty-range]"
 							}
 							if kind != "" {
 								kinds[kind] = true
